@@ -53,6 +53,7 @@ def tokens():
         ('cut', (0xC3,)),
         ('LD HL,nn', (0x21, 0x48, 0x65)),
         ('DJNZ -2', (0x10, 0xFE)),
+        ('CALL past RET', (0xCD, 0x04, 0x80, 0xC9)),     # CALL ORG+4 ; RET  (as first token: calls whatever follows)
     ]
 
 
@@ -127,9 +128,14 @@ def exec_trace(data, entry, start, end, horizon=64):
     return sorted(set(out))
 
 
-def check(data, start, end, opts, map_addrs=None, map_fmt=None, ini=(), dictionary=None):
+def check(data, start, end, opts, map_addrs=None, map_fmt=None, ini=(), dictionary=None, tail=False, tiling_only=False):
     """Returns (list of problems, executions)."""
     d = tools.workdir()
+    # the file continues past END (a NOP, a RET, a NOP): code that runs off the end of the
+    # range finds a terminal instruction beyond it, which must not attract directives
+    orig = data
+    if tail:
+        data = bytes(data[:end - ORG]) + bytes((0x00, 0xC9, 0x00))
     binfile = tools.write_file('c14.bin', data, d)
     args = ['-o', str(ORG), '-s', str(start), '-e', str(end)] + list(opts)
     for kv in ini:
@@ -156,6 +162,9 @@ def check(data, start, end, opts, map_addrs=None, map_fmt=None, ini=(), dictiona
         m = _SUB.match(line)
         if m:
             subs.append((m.group(1), parse_addr(m.group(2)), line))
+            continue
+        if line.strip() and not line.startswith(('@ ', '  ', '. ', ': ', '; ', '# ', '> ', 'D ', 'N ', 'E ', 'R ', 'L ')):
+            problems.append('line {!r} is not a control directive'.format(line))
     if not blocks:
         return ['no block directives at all'], 1
     if blocks[0][1] != start:
@@ -169,14 +178,15 @@ def check(data, start, end, opts, map_addrs=None, map_fmt=None, ini=(), dictiona
     for t, a in blocks[:-1]:
         if not start <= a < end:
             problems.append('block directive {} {} outside the range'.format(t, a))
-    if map_addrs is not None:
+    if map_addrs is not None and not tiling_only:
         for a in map_addrs:
             if start <= a < end:
                 owner = [b for b in blocks if b[1] <= a]
                 if not owner or owner[-1][0] != 'c':
                     problems.append('mapped address {} lies in a {!r} block'.format(a, owner[-1][0] if owner else None))
                     break
-    if problems:
+    if problems or tiling_only:
+        # arbitrary (non-trace) address sets: the property requires termination and tiling only
         return problems, 1
     # feed it to sna2skool (default options: -r sub-blocks are already in the control file)
     ctl_text = r.out
@@ -197,7 +207,7 @@ def check(data, start, end, opts, map_addrs=None, map_fmt=None, ini=(), dictiona
         if start <= a < end and a not in iaddrs:
             problems.append('sub-block directive {!r} does not sit on an instruction boundary of the skool file'.format(line.strip()))
     ign = [(end, 65536)]
-    bad = c01.compare(image, data[start - ORG:end - ORG], start, end, [])
+    bad = c01.compare(image, orig[start - ORG:end - ORG], start, end, [])
     for a, want, got in bad[:3]:
         problems.append('round trip: byte at {} is {} (original {})'.format(a, got, want))
     problems.extend(probs[:2])
@@ -220,7 +230,7 @@ def cases(tier):
         for seq in itertools.product(range(n), repeat=L):
             yield ('trace', seq)
     # arbitrary maps: every subset of an 8-byte window on fixed images
-    fixed = [(0, 8, 7), (15, 0), (7, 9, 13), (13, 14, 0, 18), (16, 1), (19, 20, 11, 0)]
+    fixed = [(0, 8, 7), (15, 0), (7, 9, 13), (13, 14, 0, 18), (16, 1), (19, 20, 11, 0), (4, 0, 8, 19), (4, 8, 8, 8), (1, 8, 19), (21, 8, 19), (21, 7, 12), (21, 8, 7)]
     for fi, seq in enumerate(fixed):
         for mask in range(256):
             yield ('subset', (seq, mask))
@@ -264,9 +274,10 @@ def run_one(kind, spec, tier):
                 continue
             for fmt in MAP_FORMATS:
                 for opts in ((), ('-C',)) if fmt == 'z80' else ((),):
-                    p, n = check(data, ORG, end, opts, addrs, fmt)
-                    yield ('trace/{}/entry{}/{}/{}'.format(names, ei, fmt, ' '.join(opts) or '-'),
-                           {'kind': 'map', 'seq': list(seq), 'start': ORG, 'end': end, 'opts': list(opts), 'map': addrs, 'fmt': fmt}, p, n)
+                    for tail in ((False, True) if fmt == 'z80' else (False,)):
+                        p, n = check(data, ORG, end, opts, addrs, fmt, tail=tail)
+                        yield ('trace/{}/entry{}/{}/{}{}'.format(names, ei, fmt, ' '.join(opts) or '-', '/tail' if tail else ''),
+                               {'kind': 'map', 'seq': list(seq), 'start': ORG, 'end': end, 'opts': list(opts), 'map': addrs, 'fmt': fmt, 'tail': tail}, p, n)
     else:
         seq, mask = spec
         data, starts = build(seq)
@@ -274,9 +285,12 @@ def run_one(kind, spec, tier):
         end = ORG + len(data)
         addrs = [ORG + i for i in range(8) if mask & (1 << i)]
         fmt = MAP_FORMATS[mask % len(MAP_FORMATS)]
-        p, n = check(data, ORG, end, ('-C',) if mask & 1 else (), addrs, fmt)
-        yield ('subset/{}/{:08b}/{}'.format('>'.join(T[i][0] for i in seq), mask, fmt),
-               {'kind': 'map', 'seq': list(seq), 'pad8': True, 'start': ORG, 'end': end, 'opts': ['-C'] if mask & 1 else [], 'map': addrs, 'fmt': fmt}, p, n)
+        for tail in (False, True):
+            e = end if not tail else ORG + 8
+            p, n = check(data, ORG, e, ('-C',) if mask & 1 else (), addrs, fmt, tail=tail, tiling_only=True)
+            yield ('subset/{}/{:08b}/{}{}'.format('>'.join(T[i][0] for i in seq), mask, fmt, '/tail' if tail else ''),
+                   {'kind': 'map', 'seq': list(seq), 'pad8': True, 'start': ORG, 'end': e, 'opts': ['-C'] if mask & 1 else [], 'map': addrs, 'fmt': fmt,
+                    'tail': tail, 'tiling_only': True}, p, n)
 
 
 def _shard(shard, nshards, tier, seed):
@@ -305,14 +319,14 @@ def run(tier, seed):
     stats = core.run_shards(_shard, tier, seed, prop=PROPERTY)
     stats.traces = stats.counters['fed_to_sna2skool']
     meta = dict(
-        rule='images = all token sequences of length <= {} over a 21-token alphabet x ranges (whole, first token dropped, last byte dropped) x options '
+        rule='images = all token sequences of length <= {} over a 22-token alphabet x ranges (whole, first token dropped, last byte dropped) x options '
              '(none,-C,-r,-h,-l,-C -r; TextMinLength*/TextChars/Dictionary on sequences <= 2); execution-trace code maps from every token start in 5 '
-             'map formats for sequences <= {}; every subset (256) of an 8-byte window as an arbitrary map on 6 fixed images. states = distinct token '
+             'map formats for sequences <= {}; every subset (256) of an 8-byte window as an arbitrary map on 12 fixed images. states = distinct token '
              'sets'.format(3 if tier == 'quick' else 4, 2 if tier == 'quick' else 3),
         exhaustive=True,
         bound='token sequences <= {}'.format(3 if tier == 'quick' else 4),
         assumptions=['the generated control file is fed to sna2skool with default options (sna2ctl -r already writes the RST argument sub-blocks)',
-                     'for arbitrary (non-trace) maps only termination, tiling, coverage of mapped addresses and the sna2skool clauses are required, as for trace maps'],
+                     'for arbitrary (non-trace) address sets only termination and tiling are required (as the property states); trace maps get every clause'],
         required_guards=['plain', 'trace', 'subset', 'fed_to_sna2skool'],
     )
     return stats, meta
@@ -322,5 +336,6 @@ def replay(case):
     data, starts = build(tuple(case['seq']))
     if case.get('pad8'):
         data = (data + bytes(8))[:max(8, len(data))]
-    p, n = check(data, case['start'], case['end'], tuple(case['opts']), case.get('map'), case.get('fmt'), tuple(case.get('ini', ())), case.get('dict'))
+    p, n = check(data, case['start'], case['end'], tuple(case['opts']), case.get('map'), case.get('fmt'), tuple(case.get('ini', ())), case.get('dict'),
+                 tail=case.get('tail', False), tiling_only=case.get('tiling_only', False))
     return p
